@@ -11,8 +11,10 @@ LEVEL = "exploration"
 RUNS = {"quick": 40000, "thorough": 1500000}
 RULE = ("seeded biased random walks (hot keys, cyclic sweeps over size+1 keys, bursts, uniform) of 1..400 lookups "
         "over table sizes 1..8 with size+2 keys, real LookupEncoder coupled event by event to the real LookupDecoder "
-        "under the name / prefix (with empty prefix) / datatype index rules, and real TermEncoder.encode_iri / "
-        "encode_literal rows fed to the real Decoder (names 8..12); invariant checked after every event; "
+        "under the name / prefix (with empty prefix) / datatype index rules, real TermEncoder.encode_iri / "
+        "encode_literal rows fed to the real Decoder (names 8..12), and whole statements (real encode_triple rows, all "
+        "entry rows before the statement row, tables possibly smaller than one statement: refusal allowed, wrong "
+        "resolution not); invariant checked after every event; "
         "evaluations = lookup events; distinct_nontrivial = distinct joint writer/reader states canonicalised "
         "under key renaming (LRU order, key->index, last_assigned, last_reused, reader table, reader last_*)")
 COMPONENTS = {"real": ["serialize.lookup.Lookup / LookupEncoder", "parse.lookup.LookupDecoder",
@@ -22,7 +24,7 @@ COMPONENTS = {"real": ["serialize.lookup.Lookup / LookupEncoder", "parse.lookup.
 ASSUMPTIONS = ["sampling of histories, not closure of the state space (the saturation figure "
                "distinct_new_in_last_10pct_of_runs is reported instead)"]
 PROBES = ["evictions", "zero_entry_ids", "zero_term_ids", "size_1", "size_8", "rule_name", "rule_prefix",
-          "rule_datatype", "level_terms", "empty_prefix_uses"]
+          "rule_datatype", "level_terms", "level_rows", "rows_refused", "empty_prefix_uses"]
 SHRINK_LISTS = ["ops"]
 
 
@@ -48,7 +50,23 @@ def gen_walk(rng, nkeys, length):
 
 
 def generate(rng, run, tier):
-    level = rng.choice(["tables", "tables", "terms"])
+    level = rng.choice(["tables", "tables", "terms", "rows"])
+    if level == "rows":
+        # whole statements: all entry rows of a statement travel before the row that references them
+        names = rng.choice([8, 8, 9, 10])
+        prefixes = rng.choice([0, 1, 2, 3, 4])
+        datatypes = rng.choice([1, 2, 3])
+        length = rng.choice([3, 10, 40, 120, 400] + ([1500] if tier == "thorough" else []))
+        ops = []
+        for _ in range(length):
+            st = []
+            for slot in range(3):
+                if slot == 2 and rng.random() < 0.3:
+                    st.append(["lit", rng.randrange(datatypes + 2)])
+                else:
+                    st.append(["iri", rng.randrange(max(1, prefixes) + 2), rng.randrange(names + 2)])
+            ops.append(st)
+        return {"level": level, "names": names, "prefixes": prefixes, "datatypes": datatypes, "ops": ops}
     if level == "tables":
         size = rng.randint(1, 8)
         rule = rng.choice(["name", "prefix", "datatype"])
@@ -200,10 +218,69 @@ def run_terms(plan, sim):
     return [], states
 
 
+def run_rows(plan, sim):
+    """Real encode_triple rows handed, statement by statement, to the real Decoder."""
+    from pyjelly import jelly
+    from pyjelly.errors import JellyConformanceError
+    from pyjelly.integrations.generic.generic_sink import IRI, BlankNode, Literal
+    from pyjelly.integrations.generic.parse import GenericTriplesAdapter
+    from pyjelly.integrations.generic.serialize import GenericSinkTermEncoder
+    from pyjelly.options import LookupPreset, StreamParameters, StreamTypes
+    from pyjelly.parse.decode import Decoder, ParserOptions
+    from pyjelly.serialize.encode import encode_triple
+    sim.count("level_rows")
+    preset = LookupPreset(max_names=plan["names"], max_prefixes=plan["prefixes"], max_datatypes=plan["datatypes"])
+    enc = GenericSinkTermEncoder(lookup_preset=preset)
+    po = ParserOptions(StreamTypes(jelly.PHYSICAL_STREAM_TYPE_TRIPLES, jelly.LOGICAL_STREAM_TYPE_FLAT_TRIPLES),
+                       preset, StreamParameters())
+    dec = Decoder(adapter=GenericTriplesAdapter(po))
+    prefixes = ["", "http://a/", "http://b#", "http://c/d/", "urn:x:", "http://e/f#"]
+    repeated = [None, None, None, None]
+    states = set()
+    for step, st in enumerate(plan["ops"]):
+        sim.count("evaluations")
+        terms = []
+        for t in st:
+            if t[0] == "iri":
+                terms.append(IRI(prefixes[t[1] % len(prefixes)] + f"n{t[2]}"))
+            else:
+                terms.append(Literal("x", None, f"http://dt/{t[1]}"))
+        try:
+            rows = encode_triple(terms, enc, repeated)
+        except JellyConformanceError:
+            sim.count("rows_refused")
+            sim.event("refused", step)
+            break               # refused rather than corrupted: allowed; the encoder state is not usable afterwards
+        got = None
+        for row in rows:
+            inner = getattr(row, row.WhichOneof("row"))
+            out = dec.decode_row(inner)
+            if row.WhichOneof("row") == "triple":
+                got = out
+        sim.event("stmt", step, len(rows))
+        want = tuple(terms)
+        if got is None or tuple(got) != want:
+            return fail("resolves_to_other_string", "rows",
+                        f"statement {step}: writer encoded {want!r}, reader resolved {tuple(got) if got else None!r} "
+                        f"(tables names={plan['names']} prefixes={plan['prefixes']} datatypes={plan['datatypes']})"), states
+        for name, e, d, size in (("names", enc.names, dec.names, plan["names"]),
+                                 ("prefixes", enc.prefixes, dec.prefixes, plan["prefixes"]),
+                                 ("datatypes", enc.datatypes, dec.datatypes, plan["datatypes"])):
+            if size:
+                err = check_mirror(e, d, size, f"statement {step} {name}")
+                if err:
+                    return fail("tables_diverged", "rows", err), states
+        states.add(("rows", plan["names"], plan["prefixes"], canon_state(enc.names, dec.names),
+                    canon_state(enc.prefixes, dec.prefixes) if plan["prefixes"] else None))
+    return [], states
+
+
 def execute(plan, sim):
     try:
         if plan["level"] == "tables":
             v, states = run_tables(plan, sim)
+        elif plan["level"] == "rows":
+            v, states = run_rows(plan, sim)
         else:
             v, states = run_terms(plan, sim)
     except Exception as e:  # noqa: BLE001
